@@ -22,7 +22,7 @@ LAYOUTS = ["contig", "expanded", "transposed", "slice"]
 OPS_BUILDERS = ["Dense", "DensePD", "Diag", "ConstantDiag", "Toeplitz", "TriangularLower", "CholLower", "Root", "Kronecker", "KroneckerPD",
                 "KroneckerAddedConstDiag", "AddedDiag", "LowRankRootAddedDiag", "Sum", "Matmul", "Mul", "ConstantMul", "BlockDiag",
                 "BlockInterleaved", "SumBatch", "BatchRepeat", "CatRows", "Interpolated", "Masked", "Kernel", "Identity", "Zero"]
-UTILS = ["linear_cg", "minres", "lanczos", "psd_safe_cholesky", "stable_qr", "toeplitz", "sparse", "interp", "pivoted_cholesky", "kron_solve",
+UTILS = ["alias_inner", "one_by_one", "linear_cg", "minres", "lanczos", "psd_safe_cholesky", "stable_qr", "toeplitz", "sparse", "interp", "pivoted_cholesky", "kron_solve",
          "cat_rows", "inplace_methods", "batch_repeat"]
 
 
@@ -131,6 +131,58 @@ def harness(ctx):
         ctx.eq(op.to_dense() if False else ref, ref, "noop")
         return
 
+    if g == "alias_inner":
+        # inner operators whose _matmul hands back the right-hand side itself: an outer in-place update would hit the caller's tensor
+        import linear_operator.operators as O
+        d = ctx.leaf("d", (n,), positive=True)
+        I = O.IdentityLinearOperator(n, dtype=torch.float64)
+        ops = {
+            "AddedDiag(Identity.root, Diag)": lambda: O.AddedDiagLinearOperator(I.root_decomposition(), O.DiagLinearOperator(d)),
+            "Identity.root + Diag": lambda: I.root_decomposition() + O.DiagLinearOperator(d),
+            "Matmul(I, I)": lambda: O.MatmulLinearOperator(I, I),
+            "Kronecker(I_n, I_1)": lambda: O.KroneckerProductLinearOperator(I, O.IdentityLinearOperator(1, dtype=torch.float64)),
+            "Sum(I, Diag)": lambda: O.SumLinearOperator(I, O.DiagLinearOperator(d)),
+            "ConstantMul(I)": lambda: I * 2.0,
+            "Identity.add_jitter": lambda: I.add_jitter(0.5),
+        }
+        X = layout(ctx, "argX", (n, 2), lay)
+        v = layout(ctx, "argv", (n,), lay)
+        for name, mk in ops.items():
+            op = quiet(mk)
+            if op is None:
+                continue
+            quiet(lambda: op @ X)
+            quiet(lambda: op._matmul(X))
+            quiet(lambda: op @ v)
+            quiet(lambda: op.mT @ X)
+            quiet(lambda: X.mT @ op)
+            quiet(lambda: op.solve(X))
+            ctx.assert_no_mutation(name)
+        ctx.eq(X, X, "noop")
+        return
+    if g == "one_by_one":
+        import linear_operator.operators as O
+        big = ctx.leaf("big", (3, 3), positive=True)
+        k = layout(ctx, "k11", (1, 1), lay, positive=True)
+        kb = ctx.leaf("k11b", (2, 1, 1), positive=True)
+        rhs = ctx.leaf("rhs", (1, 1))
+        for name, mk in {"Dense 1x1": lambda: O.DenseLinearOperator(k), "batch of 1x1": lambda: O.DenseLinearOperator(kb),
+                         "1x1 slice of a 3x3 dense operator": lambda: O.DenseLinearOperator(big)[1:2, 1:2], "Diag 1x1": lambda: O.DiagLinearOperator(k[0]),
+                         "Toeplitz 1x1": lambda: O.ToeplitzLinearOperator(k[0])}.items():
+            op = quiet(mk)
+            if op is None:
+                continue
+            quiet(lambda: op.cholesky())
+            quiet(lambda: op.solve(rhs))
+            quiet(lambda: op.logdet())
+            quiet(lambda: op.inv_quad_logdet(rhs, logdet=True))
+            quiet(lambda: op.root_decomposition().to_dense())
+            quiet(lambda: op.root_inv_decomposition().to_dense())
+            quiet(lambda: op.zero_mean_mvn_samples(1))
+            quiet(lambda: op.diagonalization())
+            ctx.assert_no_mutation(name)
+        ctx.eq(rhs, rhs, "noop")
+        return
     if g == "linear_cg":
         L = ctx.leaf("L", (n, n), tril=True, posdiag=True)
         A = L @ L.mT
